@@ -447,3 +447,27 @@ def blocksz_denotes(s, consts):
 def coq_blocksz(args):
     return COQ_HDR + "Definition args : list string := [%s].\nEval vm_compute in (blocksz_check args).\n" % \
         "; ".join('"%s"' % a.encode("utf-8").hex() for a in args)
+
+
+def edge_long_files(rng, bs):
+    """single-notation logs whose FIRST message has a line ending exactly on the last byte of block zero (for block size
+    bs), followed by (V1) a continuation line longer than a block, (V2) a dated line longer than a block, (V3) short
+    continuation lines; then ordinary messages.  In the accepted domain at bs and at the default size."""
+    out = []
+    t = rng.randrange(0, 2000)
+
+    def head(t, n):
+        st = n_iso(t) + b" |"
+        return st + b"h" * (n - len(st) - 1) + b"\n"
+    tail = b"".join(n_iso(t + 10 + k) + b" |tail message %d\n" % k + (b" tail continuation\n" if k % 2 else b"") for k in range(4))
+    long_n = bs + rng.randrange(1, bs + 1)
+    # V1: the head line ends on the edge, a long continuation follows
+    out.append((head(t, bs) + b" " + b"c" * (long_n - 2) + b"\n" + tail, "edge-long V1 bs=%d" % bs))
+    # V2: head + continuation end on the edge, a long DATED line follows
+    h = head(t, 30)
+    out.append((h + pad_line(bs - len(h)) + n_iso(t + 1) + b" |" + b"d" * long_n + b"\n" + tail, "edge-long V2 bs=%d" % bs))
+    # V3: the head line ends on the edge, short continuation lines follow
+    out.append((head(t, bs) + b" short continuation one\n two\n" + tail, "edge-long V3 bs=%d" % bs))
+    # V4: as V1 but the long line is the last of the file, without a final newline
+    out.append((head(t, bs) + b" " + b"e" * (long_n - 2), "edge-long V4 bs=%d" % bs))
+    return out
